@@ -175,7 +175,9 @@ func (e *Explorer) execute(prefix []int, tracing bool, recorded []string) (c *Ct
 	c = &Ctx{Tier: e.Tier, prefix: prefix, tracing: tracing, recorded: recorded}
 	defer func() {
 		if r := recover(); r != nil {
-			if he, ok := r.(HarnessError); ok {
+			if dp, ok := r.(divergedPlain); ok {
+				herr = divergedPlain{fmt.Sprintf("%s [scenario %s prefix %v]", dp.msg, e.scen.Name, prefix)}
+			} else if he, ok := r.(HarnessError); ok {
 				herr = HarnessError{fmt.Sprintf("%s [scenario %s prefix %v]", he.Msg, e.scen.Name, prefix)}
 			} else if st := string(debug.Stack()); libraryFrameAbovePanic(st) {
 				// the panic was raised inside the library under test (on the goroutine that called it): that is a verdict about the
@@ -198,7 +200,10 @@ func (e *Explorer) execute(prefix []int, tracing bool, recorded []string) (c *Ct
 		return c, divergedWithFailure{fmt.Sprintf("scenario %s: prefix has %d choices, the execution failed after %d points: %s", e.scen.Name, len(prefix), len(c.Points), c.Fails[0].Sig)}
 	}
 	if len(c.Points) < len(prefix) {
-		return c, HarnessError{fmt.Sprintf("replay divergence in scenario %s: prefix has %d choices, execution met only %d points", e.scen.Name, len(prefix), len(c.Points))}
+		// no failure, but fewer choice points than the execution this prefix was taken from: the code under test (or, if this ever shows
+		// on the unchanged tree, the harness) did not behave the same way twice. The subtree cannot be explored reliably; it is skipped,
+		// recorded under coverage.unreproducible, and the run is not exhaustive.
+		return c, divergedPlain{fmt.Sprintf("replay divergence in scenario %s: prefix has %d choices, execution met only %d points", e.scen.Name, len(prefix), len(c.Points))}
 	}
 	return c, nil
 }
@@ -237,6 +242,11 @@ func stripDigitsMC(s string) string {
 	}
 	return string(b)
 }
+
+// divergedPlain: see execute.
+type divergedPlain struct{ msg string }
+
+func (d divergedPlain) Error() string { return d.msg }
 
 // divergedWithFailure: see execute.
 type divergedWithFailure struct{ msg string }
@@ -291,6 +301,12 @@ func (e *Explorer) explore(prefix []int, depth int, prefixCost int) {
 		fmt.Fprintf(os.Stderr, "UNREPRODUCIBLE (the code under test did not behave the same way twice) %s\n", d.msg)
 		c.Choices = c.Choices[:len(c.Points)]
 		e.record(c)
+		return
+	}
+	if d, ok := err.(divergedPlain); ok {
+		e.Stats.Unreproducible = append(e.Stats.Unreproducible, d.msg)
+		e.Stats.Truncated = true
+		fmt.Fprintf(os.Stderr, "UNREPRODUCIBLE (subtree skipped) %s\n", d.msg)
 		return
 	}
 	if err != nil {
@@ -395,6 +411,11 @@ func (e *Explorer) addSample(c *Ctx, verdict string) {
 		fmt.Fprintf(os.Stderr, "UNREPRODUCIBLE (the code under test did not behave the same way twice) %s\n", d.msg)
 		t.Choices = t.Choices[:len(t.Points)]
 		e.handleViolation(t, 0)
+		return
+	}
+	if d, ok := err.(divergedPlain); ok {
+		e.Stats.Unreproducible = append(e.Stats.Unreproducible, d.msg)
+		e.Stats.Truncated = true
 		return
 	}
 	if err != nil {
